@@ -7,7 +7,66 @@ use crate::gen::{secs, ParamSpec, Site, Times, WeatherSpec, PRAYERS};
 
 pub fn compute(site: &Site, spec: &ParamSpec, date: NaiveDate, weather: Option<WeatherSpec>) -> Times {
     let params = spec.build();
-    prayer_times_dt(&params, site.location(), date, weather.map(|w| w.build()))
+    let r = prayer_times_dt(&params, site.location(), date, weather.map(|w| w.build()));
+    revisit(site, spec, date, weather, &r);
+    r
+}
+
+type Remembered = (Site, ParamSpec, NaiveDate, Option<WeatherSpec>, Times);
+thread_local! {
+    static CALLS: std::cell::Cell<u64> = const { std::cell::Cell::new(0) };
+    static MEMORY: std::cell::RefCell<Vec<Remembered>> = const { std::cell::RefCell::new(Vec::new()) };
+}
+
+/// "Same arguments, same result", however many other calls lie in between: every 211th call of a thread is remembered
+/// (64 entries, overwritten round-robin), and every 97th call one remembered call - on average ~7,000 calls old, the
+/// oldest ~13,000 - is repeated and compared with what it returned then. A difference means the library's result depends
+/// on its call history (a cache that goes wrong when full, an evicted key that still hits, a counter); it is reported as
+/// a failure of the case being evaluated, with both results in the message. Such a failure is reproduced by re-running
+/// the check with the same seed, not by replaying the single case.
+fn revisit(site: &Site, spec: &ParamSpec, date: NaiveDate, weather: Option<WeatherSpec>, result: &Times) {
+    let n = CALLS.with(|c| {
+        let n = c.get() + 1;
+        c.set(n);
+        n
+    });
+    if n % 211 == 0 {
+        MEMORY.with(|m| {
+            let mut m = m.borrow_mut();
+            let e = (*site, spec.clone(), date, weather, result.clone());
+            if m.len() < 64 {
+                m.push(e);
+            } else {
+                let i = ((n / 211) % 64) as usize;
+                m[i] = e;
+            }
+        });
+    }
+    if n % 97 == 0 {
+        let old: Option<Remembered> = MEMORY.with(|m| {
+            let m = m.borrow();
+            if m.is_empty() {
+                None
+            } else {
+                Some(m[(crate::engine::mix(&[n]) % m.len() as u64) as usize].clone())
+            }
+        });
+        if let Some((s, sp, d, w, then)) = old {
+            let params = sp.build();
+            let now = prayer_times_dt(&params, s.location(), d, w.map(|x| x.build()));
+            if now != then {
+                panic!(
+                    "history-dependence: the same arguments gave a different result after other calls on this thread: site {:?} date {} method {} policy {}: before [{}] now [{}]",
+                    (s.lat.0, s.lon.0, s.elev.0, s.gmt.0),
+                    d,
+                    crate::gen::METHOD_NAMES[sp.method as usize],
+                    crate::gen::POLICY_NAMES[sp.policy as usize],
+                    crate::gen::fmt_times(&then),
+                    crate::gen::fmt_times(&now)
+                );
+            }
+        }
+    }
 }
 
 pub fn compute_p(site: &Site, params: &islamic_prayer_times::Params, date: NaiveDate, weather: Option<WeatherSpec>) -> Times {
@@ -38,7 +97,7 @@ pub fn hms(s: i64) -> String {
 /// History independence ("the library is a pure function of its arguments"): before a case is evaluated, the library
 /// is called once, on the same thread, with a *sibling* input that differs from the case in exactly one argument
 /// (chosen by `selector`: GMT offset / longitude / latitude / elevation each either far away or by a tiny amount,
-/// date +40 d, date -1 d, method/school, substitute latitude/weather). The sibling's result is discarded. Any state a change to the library keeps between
+/// date +40 d, date -1 d, method/school, substitute latitude/weather, or the neighbouring day combined with a changed offset/longitude). The sibling's result is discarded. Any state a change to the library keeps between
 /// calls (a memo keyed on a subset of the inputs, a "last day" cache, a static) then shows up as a wrong value of the
 /// case itself, which the property's independent oracle catches.
 pub fn prime(site: &Site, spec: &ParamSpec, date: NaiveDate, weather: Option<WeatherSpec>, selector: u64) {
@@ -47,8 +106,36 @@ pub fn prime(site: &Site, spec: &ParamSpec, date: NaiveDate, weather: Option<Wea
     let mut sp2 = spec.clone();
     let mut d2 = date;
     let mut w2 = weather;
-    match selector % 12 {
-        8 => s2.gmt = F(if site.gmt.0 <= 0.0 { site.gmt.0 + 0.004 } else { site.gmt.0 - 0.004 }),
+    match selector % 18 {
+        // the same month and day in another century (a key that drops part of the year)
+        16 | 17 => {
+            use chrono::Datelike;
+            let dy = if selector % 18 == 16 { 100 } else { 400 };
+            let y = if date.year() + dy <= 2399 { date.year() + dy } else { date.year() - dy };
+            d2 = NaiveDate::from_ymd_opt(y, date.month(), date.day().min(28)).map(crate::gen::clamp_date).unwrap_or(date);
+        }
+        // two arguments at once: the neighbouring day together with a tiny / large change of the offset or longitude
+        12 => {
+            d2 = crate::gen::clamp_date(date - chrono::Duration::days(1));
+            s2.gmt = F(if site.gmt.0 <= 0.0 { site.gmt.0 + 0.004 } else { site.gmt.0 - 0.004 });
+        }
+        13 => {
+            d2 = crate::gen::clamp_date(date + chrono::Duration::days(1));
+            s2.gmt = F(if site.gmt.0 <= 0.0 { site.gmt.0 + 0.004 } else { site.gmt.0 - 0.004 });
+        }
+        14 => {
+            d2 = crate::gen::clamp_date(date - chrono::Duration::days(1));
+            s2.lon = F(if site.lon.0 <= 0.0 { site.lon.0 + 0.03 } else { site.lon.0 - 0.03 });
+        }
+        15 => {
+            d2 = crate::gen::clamp_date(date - chrono::Duration::days(1));
+            s2.gmt = F(if site.gmt.0 <= 0.0 { (site.gmt.0 + 9.0).min(12.0) } else { (site.gmt.0 - 9.0).max(-12.0) });
+        }
+        8 => {
+            // a few seconds to a minute of clock offset: below/above the granularity a rounded cache key might have
+            let d = [0.0006, 0.002, 0.004, 0.012][((selector / 18) % 4) as usize];
+            s2.gmt = F(if site.gmt.0 <= 0.0 { site.gmt.0 + d } else { site.gmt.0 - d });
+        }
         9 => s2.lon = F(if site.lon.0 <= 0.0 { site.lon.0 + 0.03 } else { site.lon.0 - 0.03 }),
         10 => s2.lat = F(if site.lat.0 <= 0.0 { site.lat.0 + 0.03 } else { site.lat.0 - 0.03 }),
         11 => s2.elev = F(if site.elev.0 <= 0.0 { site.elev.0 + 1.0 } else { site.elev.0 - 1.0 }),
